@@ -1140,6 +1140,9 @@ class _Tree(_ArithmeticMixin, _Base):
 
         next = type(self)()
         next._data = data[index:]
+        # (the list is changed in place: nothing else tells the data
+        # manager that this node has to be stored again)
+        self._p_changed = True
         del data[index:]
         if len(data) == 0:
             self._firstbucket = None  # lost our bucket, can't buy no beer
